@@ -17,6 +17,8 @@ Wrappers(v) ==
     {[VW("Dim") EXCEPT !.ds = ds] : ds \in DimSets}
     \cup {[VW("Flag") EXCEPT !.f = f] : f \in {"A", "B"}}
     \cup {VW(w) : w \in IdentityValueWrappers \cup {"None"}}
+    \* formatter-lifted containers: directly around the base value only (keeps the number of stacks moderate)
+    \cup (IF stack = <<>> THEN {VW(w) : w \in FormatterLifted \cup {"FmtNone"}} ELSE {})
     \cup {[VW("Unit") EXCEPT !.from = v.prom, !.to = t] : t \in {t \in StackUnits : Convertible(U(v.prom), U(t))}}
 
 Init == base \in Bases /\ stack = <<>> /\ val = BaseVal(base)
@@ -34,12 +36,12 @@ OnlyAdditions ==
     LET b == BaseVal(base).call
         c == val.call
         noUnit == \A i \in DOMAIN stack : stack[i].w # "Unit"
-        noNone == \A i \in DOMAIN stack : stack[i].w # "None"
+        noNone == \A i \in DOMAIN stack : ~IsNoneW(stack[i].w)
     IN  /\ (noUnit /\ noNone) => /\ c.kind = b.kind /\ c.obs = b.obs /\ c.unit = b.unit /\ c.err = b.err
                                  /\ b.kind # "metric" => c = b
                                  /\ SubSeq(c.dims, 1, Len(b.dims)) = b.dims
                                  /\ b.flags \subseteq c.flags
-        /\ (\A i \in DOMAIN stack : stack[i].w \in IdentityValueWrappers) => c = b
+        /\ (\A i \in DOMAIN stack : stack[i].w \in IdentityValueWrappers \cup FormatterLifted) => c = b
         /\ ~noNone => c = NoCall
 Units19 ==
     LET c == val.call
@@ -47,7 +49,7 @@ Units19 ==
         /\ (c.kind = "metric" /\ \E i \in DOMAIN stack : stack[i].w = "Unit")
               => c.unit = stack[Max(UnitLayers(stack))].to
         \* a unit on a string, or on a value that writes another unit than it promises: an error, never a number
-        /\ (\E i \in DOMAIN stack : stack[i].w = "Unit") /\ (\A i \in DOMAIN stack : stack[i].w # "None")
+        /\ (\E i \in DOMAIN stack : stack[i].w = "Unit") /\ (\A i \in DOMAIN stack : ~IsNoneW(stack[i].w))
               /\ (base = "str" \/ base = "bad") => c.kind = "error"
         /\ c.kind = "metric" => \A i \in DOMAIN c.obs : c.obs[i].occ = BaseVal(base).call.obs[i].occ
 
